@@ -173,7 +173,9 @@ Expected107(f) ==
   \cup (IF f.chB # f.chC THEN {"D79"} ELSE {})
   \cup (IF f.f33 = "same" THEN {"D21"} ELSE {})
   \cup (IF (f.f33 = "diffcur" /\ ~f.f36) \/ (f.f33 # "diffcur" /\ f.f36) THEN {"D75"} ELSE {})
-  \cup (IF ~f.sumok THEN {"D80"} ELSE {})     \* no field 19 here: the settlement amount itself must be the sum (D80);
+  \cup (IF ~f.sumok \/ f.chB THEN {"D80"} ELSE {})
+                                             \* with charges in sequence B the sum must be in field 19 (absent here: D80);
+                                             \* no field 19 here: the settlement amount itself must be the sum (D80);
                                              \* C01 concerns field 19, which these vectors never carry
   \cup (IF f.ntx = 2 /\ f.cur2 = "diff" THEN {"C02"} ELSE {})
   \cup (IF f.code = "ZZZZ" /\ f.e23 # "none" THEN {"T47"} ELSE {})
